@@ -184,6 +184,12 @@ def _replay(rec):
         bad.append(f"find('a', classes=['c', 'd']): expected {rec['findcd']} (all of the classes), observed {fid(root.find('a', classes=['c', 'd']))}")
     if fid(root.find("a", classes=[])) != list(rec["finde"]):
         bad.append(f"find('a', classes=[]): expected {rec['finde']}, observed {fid(root.find('a', classes=[]))}")
+    # find() on an element (the first <a>, or the root), the four combinations of include_self x recurse
+    e0 = order[rec["firsta"]] if rec["firsta"] else root
+    for j, (incl, rc_) in enumerate(((True, True), (True, False), (False, True), (False, False))):
+        got_ = fid(e0.find("a", include_self=incl, recurse=rc_))
+        if got_ != list(rec["findon"][j]):
+            bad.append(f"find('a', include_self={incl}, recurse={rc_}) on element {rec['firsta']}: expected {list(rec['findon'][j])}, observed {got_}")
     if fid(root.find(H.Data)) != list(rec["findd"]):
         bad.append(f"find(Data): expected {rec['findd']}, observed {fid(root.find(H.Data))}")
     if fid(root.find("a", attrs={"class": "c"})) != [i for i in rec["finda"] if rec["nodes"][i - 1]["a"] == 1]:
